@@ -290,3 +290,8 @@ CHECKS = [
           rule='the obstacle and telepod layouts with user-defined subclasses of Floor and Telepod (fresh classes per case, defined after earlier calls, names re-used across kinds): same rules, 24 / 16 seeds each',
           required=['custom_floor', 'paired']),
 ]
+
+
+from vgv import worldedit  # noqa: E402
+
+CHECKS.append(worldedit.make_check('C11'))
